@@ -227,6 +227,21 @@ def exc_family(e):
     return "Truncated" if isinstance(e, dns.message.Truncated) else "other"
 
 
+TINY = 0.001
+
+
+def deadline_args(cfg):
+    """(timeout argument, expiration argument) for the configuration: deadline in ticks, or -
+    with deadline 0 - no timeout at all (tz "-") / timeout 0, 0.0 or a tiny positive one."""
+    if cfg["deadline"]:
+        return float(cfg["deadline"]), BASE + cfg["deadline"]
+    tz = cfg.get("tz", "-")
+    if tz == "-":
+        return None, None
+    t = {"int0": 0, "float0": 0.0, "tiny": TINY}[tz]
+    return t, BASE + t
+
+
 # ------------------------------------------------------------------ scripted sockets
 class Run:
     """One run of one entry point: the script cursor and the raw log."""
@@ -512,8 +527,7 @@ def run_udp_once(script, flavor, qop, variant):
     a = ADDRS[(cfg["fam"], cfg["mcast"])]
     where = a["where"]
     destination = None if cfg["anysrc"] else low_tuple(cfg["fam"], where, PORT)
-    timeout = float(cfg["deadline"]) if cfg["deadline"] else None
-    expiration = BASE + cfg["deadline"] if cfg["deadline"] else None
+    timeout, expiration = deadline_args(cfg)
     tcp_run = Run([{"op": "accept", "n": 1 << 20}, {"op": "chunk", "n": 1 << 20}, {"op": "chunk", "n": 1 << 20}])
     stream = _fallback_stream(qop)
     api = cfg["api"]
@@ -669,8 +683,7 @@ def run_stream_once(script, flavor):
         raise RuntimeError("query has %d octets, the case says %d" % (len(q.to_wire()), cfg["qlen"]))
     run = Run(_capacity_events(script["ev"]))
     CLOCK.now = BASE
-    timeout = float(cfg["deadline"]) if cfg["deadline"] else None
-    expiration = BASE + cfg["deadline"] if cfg["deadline"] else None
+    timeout, expiration = deadline_args(cfg)
     result = None
     exc = None
     try:
